@@ -373,8 +373,11 @@ func runC12(c *mon.Ctx) {
 // after the start and watches the first 300 ms: the early messages must arrive, the late one must not.
 // The playing goroutine is left sleeping; it ends with the worker process.
 func runC12LateSchedule(c *mon.Ctx) {
-	c.Each("late-schedule", c.N(2, 8), func(i int64, r *mon.Rand) {
-		lateTicks := []uint32{830_000, 1_700_000, 900_000, 3_400_000, 826_000, 1_000_000, 2_000_000, 5_000_000}[i%8] // x 5208 us per tick at 96 tpq, 120 BPM
+	c.Each("late-schedule", c.N(4, 8), func(i int64, r *mon.Rand) {
+		// scheduled just above 2^31, 2^32 and 2*2^32 microseconds (time arithmetic that wraps lands in the first
+		// few hundred ms), and at a few other late instants; 96 tpq at 120 BPM = 500000/96 us per tick
+		targetsUS := []float64{4294967296 + 60000, 2147483648 + 50000, 2*4294967296 + 80000, 4294967296 + 150000, 4.4e9, 9e9, 4294967296 + 5000, 2.6e10}
+		lateTicks := uint32(targetsUS[i%8]/(500000.0/96)) - 5
 		t0ev := []ref.EncEv{
 			{Ev: ref.Ev{Delta: 0, Msg: []byte{0xB0, 1, 1}}}, {Ev: ref.Ev{Delta: 2, Msg: []byte{0xB0, 1, 2}}}, {Ev: ref.Ev{Delta: 3, Msg: []byte{0xB0, 1, 3}}},
 			{Ev: ref.Ev{Delta: lateTicks, Msg: []byte{0xB0, 9, 99}}}, {Ev: ref.Ev{Delta: 1, Msg: []byte{0xB0, 9, 100}}}, {Ev: ref.Ev{Delta: 0, Msg: ref.EOT}}}
@@ -388,7 +391,7 @@ func runC12LateSchedule(c *mon.Ctx) {
 			c.Violation("readtracks-error", trd.Error().Error(), nil, nil, nil)
 			return
 		}
-		sched := int64(lateTicks+5) * 5208
+		sched := int64(float64(lateTicks+5) * 500000 / 96)
 		in := map[string]any{"file": mon.Hex(b), "late message scheduled at (us)": sched, "2^32 us": int64(1) << 32}
 		log.t0 = time.Now()
 		go func() {
